@@ -22,7 +22,7 @@ LEVEL = "exploration"
 CLASSES = ["Cuboid", "Cylinder", "CylinderSegment", "Sphere", "Tetrahedron", "TriangularMesh", "Triangle", "Circle", "Polyline", "Dipole", "DipoleMz", "DipolePz", "DipoleMx", "TriangularMeshMulti", "TriangularMeshUnchecked", "TriangleNormalPol",
            "Sensor"]
 PATHS = ["static", "transl3", "rot4", "spin4", "eqangle4"]
-FRAMES = ["default", 1, 2, [0, 2], [0, 9]]
+FRAMES = ["default", 1, 2, [0, 2], [0, 9], "np2"]   # "np2": the step 2 given as numpy integer
 UNITS = ["m", "mm", "km", "Mm", "µm", "auto:Mm", "auto:µm", "auto:m"]
 NEST = ["bare", "coll", "nested", "deep3", "deep4"]
 UNIT_SCALE = {"m": 1.0, "mm": 1e-3, "km": 1e3, "Mm": 1e6, "µm": 1e-6, "Gm": 1e9, "nm": 1e-9}   # size of the unit in metres (SI prefixes)
@@ -122,6 +122,8 @@ def drawn_xyz(t):
 
 
 def expected_indices(L, frames):
+    if frames == "np2":
+        frames = 2
     if frames == "default":
         return [L - 1]
     if isinstance(frames, int):
@@ -353,7 +355,7 @@ def run_case(c):
     if cls in ("Circle", "Polyline"):
         obj.style.arrow.show = False
     if frames != "default":
-        obj.style.path.frames = frames
+        obj.style.path.frames = np.int64(2) if frames == "np2" else frames
     if anim:
         kw["animation"] = anim if anim not in ("kwargs", "downsample") else True
         if anim == "kwargs":
@@ -522,7 +524,7 @@ def run_mpl(c):
     if cls in ("Circle", "Polyline"):
         obj.style.arrow.show = False
     if frames != "default":
-        obj.style.path.frames = frames
+        obj.style.path.frames = np.int64(2) if frames == "np2" else frames
     before = snapshot_all([obj])
     try:
         with common.time_limit(120):
@@ -567,7 +569,7 @@ def run_extra(c):
         obj.style.magnetization.show = False
     Q = EXTRA_Q * scale
     if frames != "default":
-        obj.style.path.frames = frames
+        obj.style.path.frames = np.int64(2) if frames == "np2" else frames
     kw = dict(x=Q[:, 0].copy(), y=Q[:, 1].copy(), z=Q[:, 2].copy(), mode="lines")
     if form == "generic_kwargs":
         obj.style.model3d.add_trace(backend="generic", constructor="scatter3d", kwargs=kw, scale=tscale, show=True)
